@@ -1,0 +1,22 @@
+//go:build verif
+
+package modbus
+
+import "sync"
+
+var verifYieldMu sync.Mutex
+var verifYieldFn func(point string)
+
+// verifYield is a scheduling point: the harness may block here to order
+// the admission/removal steps deterministically.
+func verifYield(point string) {
+	var f func(point string)
+
+	verifYieldMu.Lock()
+	f = verifYieldFn
+	verifYieldMu.Unlock()
+
+	if f != nil {
+		f(point)
+	}
+}
